@@ -114,9 +114,26 @@ pub fn medium_cfg(kind: Kind, rng: &mut Rng) -> Cfg {
     }
 }
 
+/// hundreds of entries: thresholds in capacities, lengths and index growth
+pub fn large_cfg(kind: Kind, rng: &mut Rng) -> Cfg {
+    match kind {
+        Kind::Lru => Cfg::lru(rng.range(64, 300) as usize),
+        Kind::Slru => Cfg::slru(rng.range(32, 130) as usize, rng.range(32, 130) as usize),
+        Kind::TwoQ => Cfg::twoq(rng.range(64, 260) as usize, *rng.pick(&[0.05, 0.25, 0.6]), *rng.pick(&[0.1, 0.5, 1.0])),
+        Kind::Arc => Cfg::arc(rng.range(64, 200) as usize),
+        Kind::Wtlfu => Cfg::wtlfu(rng.range(2, 20) as usize, rng.range(40, 120) as usize, rng.range(10, 60) as usize, *rng.pick(&[50usize, 500, 5000]), *rng.pick(&[HKind::Ident, HKind::RandA, HKind::Fnv])),
+    }
+}
+
 pub fn random_cfg(kind: Kind, rng: &mut Rng, thorough: bool) -> Cfg {
     let cfgs = small_cfgs(kind, thorough);
-    let mut c = if rng.chance(1, 12) { medium_cfg(kind, rng) } else { rng.pick(&cfgs).clone() };
+    let mut c = if rng.chance(1, 40) {
+        large_cfg(kind, rng)
+    } else if rng.chance(1, 12) {
+        medium_cfg(kind, rng)
+    } else {
+        rng.pick(&cfgs).clone()
+    };
     c.hk = *rng.pick(&HKINDS);
     // mostly the hasher-taking constructors / builders, sometimes the plain constructors
     c.ctor = match rng.below(8) {
@@ -142,7 +159,7 @@ fn rnd_iter(kind: Kind, rng: &mut Rng, list_len_hint: usize) -> Op {
         pat: rng.next() as u32 & ((1u32 << steps.min(31)) - 1).max(0),
         write: rng.chance(1, 3),
         clone_at: if rng.chance(1, 3) { rng.range(0, steps as u64) as u8 } else { 255 },
-        fin: if rng.chance(1, 2) { 0 } else { rng.range(1, 5) as u8 },
+        fin: if rng.chance(1, 3) { 0 } else { rng.range(1, 8) as u8 },
     })
 }
 
